@@ -134,6 +134,18 @@ def selectFor (impls : List Ty) : Option Ty → Option Nat
 def dispatch (sig inst msig callTy : Ty) (impls : List Ty) : Option Nat :=
   selectFor impls (extractImplTy msig (subst (update [] sig inst) callTy))
 
+/-- An interface method used as a function VALUE (`let f = Iface.m`, an argument of a higher-order
+    function, an array element …; `translate_declaration`, `Declaration::InterfaceMethod`): the
+    closure is built for the implementation selected exactly as for a call, from the value's
+    (instantiated) function type — and the method is the one with the interface method's name. -/
+def dispatchValue (sig inst msig valueTy : Ty) (impls : List Ty) : Option Nat :=
+  selectFor impls (extractImplTy msig (subst (update [] sig inst) valueTy))
+
+def methodOfValue {ν : Type} [DecidableEq ν] (ifaceMethods implMethods : List ν) (idx : Nat) : Option Nat :=
+  match ifaceMethods[idx]? with
+  | some name => implMethods.findIdx? (· = name)
+  | none => none
+
 /-! ### the monotype component of a label
 
 `{monoty}` in the label hint is the `Display` of the monotype, which names a nominal type by its
